@@ -30,9 +30,13 @@ package search
 //@ func SortOrder.Compute
 //@   props C16 C09
 //@   opaque
-//@ func SortOrder.Compare
+// the ranking order as a function of the two matches (ASSUMED for the collector contracts: the sort
+// values and hit numbers of the matches compared do not change while they are in the store)
+//@ func SortOrder.Compare(i, j) (r)
 //@   props C16 C09
-//@   opaque
+//@   trusted
+//@   pure
+//@   ensures r == cmp(i, j)
 //@ func DocumentMatchPool.Put
 //@   props C16 C09
 //@   opaque
